@@ -2358,6 +2358,17 @@ def check(ctx):
     _rule6(ctx, rep)
     _rule7(ctx, rep)
     _rule8(ctx, rep)
+    from . import shared
+
+    def _c09(m):
+        fx = m.Facts(ctx)
+        m.rule1(ctx, rep, fx)
+        m.rule4(ctx, rep, fx)
+
+    shared.borrow(ctx, rep, [
+        ('c20', lambda m: m.rule6(ctx, rep), 'an accepted package must be schedulable: what _delay dereferences of an event, rule_10 has to demand'),
+        ('c09', _c09, 'an accepted package must be turned into a task graph with every declared edge: the graph construction follows the declarations'),
+    ])
     return rep
 
 
